@@ -68,15 +68,16 @@ def build_grid(spec: dict):
 
     g = spec["grid"]
     shape = tuple(spec["shape"])
+    ctr = tuple(float(x) for x in g.get("center", (0.0, 0.0, 0.0)))  # physical coordinate of the domain centre
     if g["kind"] == "uniform":
-        return fdtdx.UniformGrid(spacing=g["spacing"])
+        return fdtdx.UniformGrid(spacing=g["spacing"], center=ctr)
     if g["kind"] == "quasi":
-        return fdtdx.QuasiUniformGrid(dx=g["d"][0], dy=g["d"][1], dz=g["d"][2])
+        return fdtdx.QuasiUniformGrid(dx=g["d"][0], dy=g["d"][1], dz=g["d"][2], center=ctr)
     if g["kind"] == "rect_uniform":
         import jax.numpy as jnp
 
         s = g["spacing"]
-        edges = [jnp.asarray(np.arange(n + 1) * s - n * s / 2.0) for n in shape]
+        edges = [jnp.asarray(np.arange(n + 1) * s - n * s / 2.0 + c) for n, c in zip(shape, ctr)]
         return fdtdx.RectilinearGrid(x_edges=edges[0], y_edges=edges[1], z_edges=edges[2])
     if g["kind"] == "rect":
         import jax.numpy as jnp
@@ -320,6 +321,9 @@ def build_detector(d: dict, dtype, complex_fields: bool, dt: float):
         plot=False,
     )
     k = d["kind"]
+    if d.get("real_place"):
+        common["partial_real_position"] = tuple(float(x) for x in d["real_place"]["center"])
+        common["partial_real_shape"] = tuple(float(x) for x in d["real_place"]["size"])
     if d.get("complex_dtype"):  # time-domain record of complex-valued fields (Bloch / forced complex storage)
         common["dtype"] = jnp.complex128 if dtype == jnp.float64 else jnp.complex64
     if k == "field":
@@ -580,7 +584,13 @@ def build_scene(spec: dict, apply: bool = True, material_arrays: dict | None = N
     vkw = {}
     if vol_mat is not None:
         vkw["material"] = build_material(vol_mat)
-    volume = fdtdx.SimulationVolume(name="volume", partial_grid_shape=tuple(spec["shape"]), **vkw)
+    if spec.get("volume_real") and spec["grid"]["kind"] in ("uniform", "quasi", "rect_uniform"):
+        # the volume given by its physical size (policy grids then derive the cell count themselves)
+        g = spec["grid"]
+        sp = [g["spacing"]] * 3 if "spacing" in g else list(g["d"])
+        volume = fdtdx.SimulationVolume(name="volume", partial_real_shape=tuple(float(n * s_) for n, s_ in zip(spec["shape"], sp)), **vkw)
+    else:
+        volume = fdtdx.SimulationVolume(name="volume", partial_grid_shape=tuple(spec["shape"]), **vkw)
     objects, constraints = [volume], []
     bo, bc = build_boundaries(spec, volume)
     objects += bo
@@ -602,6 +612,8 @@ def build_scene(spec: dict, apply: bool = True, material_arrays: dict | None = N
     for d in spec.get("detectors", []):
         det = build_detector(d, dtype, complex_fields, dt)
         objects.append(det)
+        if d.get("real_place"):
+            continue  # placed through partial_real_position / partial_real_shape (relative to the domain centre), no constraint
         constraints += _box_constraints(det, d["box"], spec)
     for dv in spec.get("devices", []):
         from fdsim import devices as _dev
